@@ -292,7 +292,7 @@ def clientTriesMeta (frame : Bytes) : Bool :=
   if frame.length < 12 then false else
   match u32At frame 0, u32At frame 4, u32At frame 8 with
   | .ok totalLen, .ok nameLen, .ok potentialMetaLen =>
-    decide (nameLen > 0 ∧ nameLen < 256 ∧ 12 + nameLen + potentialMetaLen ≤ totalLen)
+    decide (nameLen > 0 ∧ 12 + nameLen + potentialMetaLen ≤ totalLen)
   | _, _, _ => false
 
 /-! ## format detection -/
@@ -311,7 +311,7 @@ def clientDecode (c : Codec) (frame : Bytes) : R Decoded :=
   if frame.length < 12 then unmarshal c frame else
   match u32At frame 0, u32At frame 4, u32At frame 8 with
   | .ok totalLen, .ok nameLen, .ok potentialMetaLen =>
-    if nameLen > 0 ∧ nameLen < 256 ∧ 12 + nameLen + potentialMetaLen ≤ totalLen then
+    if nameLen > 0 ∧ 12 + nameLen + potentialMetaLen ≤ totalLen then
       match unmarshalWithMeta c frame with
       | .ok r => .ok r
       | .error _ => unmarshal c frame
